@@ -154,6 +154,9 @@ func (s *solver) getValues(names []string) string {
 	started := false
 	for {
 		line := s.readLine()
+		if strings.HasPrefix(line, "(error") {
+			panic(engineAbort{"solver error on get-value: " + line})
+		}
 		sb.WriteString(line)
 		sb.WriteByte(' ')
 		for _, c := range line {
